@@ -225,7 +225,7 @@ func c02Corrupt(c *vf.Ctx) {
 		defer e.front2.Close()
 		envs = append(envs, e)
 	}
-	n := c.N(2000, 60000)
+	n := c.N(2000, 150000)
 	if !c.Active(sub) {
 		n = 0
 	}
@@ -488,7 +488,7 @@ func c02FailingStore(c *vf.Ctx, envs []*c02Env) {
 	if !c.Active(sub) {
 		return
 	}
-	n := c.N(600, 20000)
+	n := c.N(600, 60000)
 	for i := 0; i < n; i++ {
 		if !c.Mine(sub, i) {
 			continue
